@@ -221,6 +221,8 @@ _COMMON_INV = [
     "forall((s, 'Un[Nid]'), s in seeds, s in acc)",
     "propagations >= 0 and radius_cap_hits_local >= 0 and layer_hits_local >= 0 and node_budget_hits_local >= 0 and layers_processed >= 0",
     "implies(" + _RC1 + ", propagations < some(relax_cap))",
+    # a relaxation cap of 0 (or below) admits no relaxation at all (the property quantifies over caps incl. 0)
+    "implies(not is_none(relax_cap) and some(relax_cap) <= 0, propagations == 0)",
 ]
 _LOOP_FACTS = _COMMON_INV + ["0 <= pops and pops <= max(effective_queue_budget, 0) and pops == heap_pops"]
 _REACH_AXIOMS = [
@@ -240,7 +242,7 @@ _DEAD_LAYER_CHECK = ["if layers_processed > effective_iter_cap_layers:"]
 _LOOP_ENSURES = [
     ("pops-within-budget", "0 <= pops and pops <= max(effective_queue_budget, 0)"),
     ("pops-counter-matches-heap-pops", "pops == heap_pops"),
-    ("relaxations-within-cap", "implies(" + _RC1 + ", propagations <= some(relax_cap))"),
+    ("relaxations-within-cap", "implies(not is_none(relax_cap), propagations <= max(some(relax_cap), 0))"),
     ("touched-nodes-reachable-within-radius-and-layer-caps",
      "forall((v, 'Un[Nid]'), v in acc, v in dist and t1_reach(v, dist[v]) and 0 <= dist[v] and "
      "(dist[v] == 0 or (dist[v] <= radius_cap and dist[v] <= effective_iter_cap_layers)))"),
